@@ -25,11 +25,14 @@ pub enum KeyForm {
     Bytes,
     /// keys arrive through visit_borrowed_bytes
     BorrowedBytes,
+    /// keys arrive as the field's index in the reader's own `fields` list (visit_u64), as compact
+    /// formats that number struct fields do; a key that is not in the list arrives as `fields.len()`
+    Index,
 }
 
 impl KeyForm {
     pub fn is_bytes(self) -> bool {
-        matches!(self, KeyForm::Bytes | KeyForm::BorrowedBytes)
+        matches!(self, KeyForm::Bytes | KeyForm::BorrowedBytes | KeyForm::Index)
     }
 }
 
